@@ -263,10 +263,10 @@ Section WithTable.
       destruct (mode h) eqn:Em; try reflexivity.
       - destruct (leaf h) eqn:El; [rewrite (mode_leaf h El) in Em; discriminate|].
         destruct (block h) eqn:Eb; [rewrite (mode_block h El Eb) in Em; discriminate|].
-        rewrite Eb in Hb. cbn in Hb. rewrite !flat_map_app. cbn. rewrite (IH Hb). reflexivity.
+        cbn in Hb. rewrite !flat_map_app. cbn. rewrite (IH Hb). reflexivity.
       - destruct (leaf h) eqn:El; [rewrite (mode_leaf h El) in Em; discriminate|].
         destruct (block h) eqn:Eb; [rewrite (mode_block h El Eb) in Em; discriminate|].
-        rewrite Eb in Hb. cbn in Hb. rewrite !flat_map_app. cbn. rewrite (IH Hb). reflexivity.
+        cbn in Hb. rewrite !flat_map_app. cbn. rewrite (IH Hb). reflexivity.
     Qed.
 
     (* converse: every collected name is a leaf that is not under the blocking operator *)
@@ -305,11 +305,11 @@ Section WithTable.
   End Collection.
 
   Lemma draws_leaf_name h : is_draws h = true -> exists n, name_of_head h = Some n.
-  Proof. destruct h; try discriminate. eauto. Qed.
+  Proof. destruct h; try discriminate; cbn; eauto. Qed.
   Lemma rv_leaf_name h : is_rv h = true -> exists n, name_of_head h = Some n.
-  Proof. destruct h; try discriminate. eauto. Qed.
+  Proof. destruct h; try discriminate; cbn; eauto. Qed.
   Lemma var_leaf_name h : is_var h = true -> exists n, name_of_head h = Some n.
-  Proof. destruct h; try discriminate. eauto. Qed.
+  Proof. destruct h; try discriminate; cbn; eauto. Qed.
   Lemma draws_leaf_arity h n : is_draws h = true -> arity_ok h n = true -> n = O.
   Proof. destruct h; try discriminate. cbn. intros _ H. apply Nat.eqb_eq in H. exact H. Qed.
   Lemma rv_leaf_arity h n : is_rv h = true -> arity_ok h n = true -> n = O.
@@ -396,7 +396,7 @@ Section WithTable.
   Proof.
     intros Hw Hk. apply (own_fault_reported db C (Node (HLogLogit uk ak) kids) Hw).
     cbn [hd_of kids_of own_errors]. unfold logit_errors.
-    destruct (same_keys uk ak) eqn:E; [apply same_keys_spec in E; contradiction|].
+    destruct (same_keys uk ak) eqn:E; [exfalso; apply Hk; exact (proj1 (same_keys_spec uk ak) E)|].
     left. reflexivity.
   Qed.
 
@@ -444,7 +444,7 @@ Section WithTable.
     own_errors T db (HLogLogit uk ak) (c :: rest) = [].
   Proof.
     intros Hk Hc Hv. cbn [own_errors]. unfold logit_errors. rewrite Hc.
-    apply same_keys_spec in Hk. rewrite Hk. cbn [app].
+    apply (proj2 (same_keys_spec uk ak)) in Hk. rewrite Hk. cbn [app].
     assert (Hf : forallb (valid_choice uk) vs = true) by (apply forallb_forall; exact Hv).
     rewrite Hf.
     destruct (any_bad_from 0 uk vs) eqn:Eb; [|reflexivity].
@@ -480,3 +480,604 @@ Section WithTable.
     rewrite (placed_ok_collect_nil (t_panel T) is_var is_traj T_panel e (Hv eq_refl)). reflexivity.
   Qed.
 End WithTable.
+
+(* ================================================================== 4c. hessian without gradient *)
+Theorem hessian_without_gradient_rejected hessian bhhh :
+  hessian || bhhh = true -> request_errors false hessian bhhh = [EHessianNoGradient].
+Proof. intros H. unfold request_errors. rewrite H. reflexivity. Qed.
+
+Theorem request_accepted gradient hessian bhhh :
+  (hessian || bhhh = true -> gradient = true) -> request_errors gradient hessian bhhh = [].
+Proof.
+  intros H. unfold request_errors. destruct (hessian || bhhh); [rewrite (H eq_refl)|]; reflexivity.
+Qed.
+
+(* ================================================================== 4d. data *)
+Theorem data_rejected_iff f :
+  data_audit f <> [] <->
+  (exists c t, In (c, t) (f_cols f) /\ numeric_dtype t = false) \/ f_has_null f = true \/ f_nrows f = O.
+Proof.
+  unfold data_audit. split.
+  - intros H.
+    destruct (filter (fun c => negb (numeric_dtype (snd c))) (f_cols f)) as [|[c t] r] eqn:Ef.
+    + cbn in H. destruct (f_has_null f); [right; left; reflexivity|].
+      destruct (Nat.eqb_spec (f_nrows f) 0); [right; right; assumption|]. cbn in H. congruence.
+    + left. exists c, t. assert (Hin : In (c, t) (filter (fun c => negb (numeric_dtype (snd c))) (f_cols f))).
+      { rewrite Ef. left. reflexivity. }
+      apply filter_In in Hin. destruct Hin as [H1 H2]. cbn in H2. apply negb_true_iff in H2. auto.
+  - intros [(c & t & Hin & Hn)|[Hn|Hn]].
+    + assert (Hf : In (c, t) (filter (fun c => negb (numeric_dtype (snd c))) (f_cols f))).
+      { apply filter_In. split; [exact Hin|]. cbn. rewrite Hn. reflexivity. }
+      destruct (filter _ (f_cols f)); [contradiction|]. cbn. discriminate.
+    + rewrite Hn. intros E. apply app_eq_nil in E. destruct E as [_ E]. discriminate.
+    + rewrite Hn. intros E. apply app_eq_nil in E. destruct E as [_ E].
+      apply app_eq_nil in E. destruct E as [_ E]. discriminate.
+Qed.
+
+Theorem data_accepted f :
+  (forall c t, In (c, t) (f_cols f) -> numeric_dtype t = true) -> f_has_null f = false -> f_nrows f <> O ->
+  data_audit f = [].
+Proof.
+  intros H1 H2 H3. destruct (data_audit f) eqn:E; [reflexivity|].
+  assert (Hne : data_audit f <> []) by (rewrite E; discriminate).
+  apply data_rejected_iff in Hne. destruct Hne as [(c & t & Hin & Hn)|[Hn|Hn]].
+  - rewrite (H1 c t Hin) in Hn. discriminate.
+  - congruence.
+  - contradiction.
+Qed.
+
+(* ================================================================== 4e. nests *)
+Lemma intersects_spec a b : intersects a b = true <-> exists x, In x a /\ In x b.
+Proof.
+  unfold intersects. rewrite existsb_exists. split; intros (x & H1 & H2); exists x; split; auto;
+    apply mem_Z_In; exact H2.
+Qed.
+
+Lemma in_union ns x : In x (nests_union ns) <-> exists a, In a (n_alts ns) /\ In x a.
+Proof.
+  unfold nests_union. rewrite in_concat. split; intros (a & H1 & H2); exists a; auto.
+Qed.
+
+Lemma nests_invalid_nil ns :
+  nests_invalid ns = [] <-> (forall a x, In a (n_alts ns) -> In x a -> In x (n_choice_set ns)).
+Proof.
+  unfold nests_invalid. split.
+  - intros H a x Ha Hx.
+    destruct (mem_Z x (n_choice_set ns)) eqn:E; [apply mem_Z_In; exact E|].
+    assert (Hin : In x (filter (fun a => negb (mem_Z a (n_choice_set ns))) (nests_union ns))).
+    { apply filter_In. split; [apply in_union; eauto|rewrite E; reflexivity]. }
+    rewrite H in Hin. contradiction.
+  - intros H. destruct (filter _ (nests_union ns)) as [|x r] eqn:E; [reflexivity|].
+    assert (Hin : In x (filter (fun a => negb (mem_Z a (n_choice_set ns))) (nests_union ns))).
+    { rewrite E. left. reflexivity. }
+    apply filter_In in Hin. destruct Hin as [H1 H2]. apply in_union in H1. destruct H1 as (a & Ha & Hx).
+    apply negb_true_iff in H2. apply mem_Z_false in H2. exfalso. apply H2. exact (H a x Ha Hx).
+Qed.
+
+Lemma union_ok_of_valid ns : nests_invalid ns = [] -> union_ok ns = true.
+Proof.
+  intros H. pose proof (proj1 (nests_invalid_nil ns) H) as Hv. unfold union_ok.
+  apply andb_true_intro. split; apply forallb_forall; intros x Hx; apply mem_Z_In.
+  - apply in_app_or in Hx. destruct Hx as [Hx|Hx].
+    + apply in_union in Hx. destruct Hx as (a & Ha & Hxa). exact (Hv a x Ha Hxa).
+    + unfold nests_alone in Hx. apply filter_In in Hx. exact (proj1 Hx).
+  - apply in_or_app. destruct (mem_Z x (nests_union ns)) eqn:E.
+    + left. apply mem_Z_In. exact E.
+    + right. unfold nests_alone. apply filter_In. split; [exact Hx|rewrite E; reflexivity].
+Qed.
+
+Lemma alone_disjoint ns a : In a (n_alts ns) -> intersects a (nests_alone ns) = false.
+Proof.
+  intros Ha. destruct (intersects a (nests_alone ns)) eqn:E; [|reflexivity].
+  apply intersects_spec in E. destruct E as (x & Hx & Hal). unfold nests_alone in Hal.
+  apply filter_In in Hal. destruct Hal as [_ H]. apply negb_true_iff in H. apply mem_Z_false in H.
+  exfalso. apply H. apply in_union. eauto.
+Qed.
+
+Lemma overlap_with_spec a i j l :
+  overlap_with a i j l = true <->
+  exists k b x, nth_error l k = Some b /\ i <> (j + k)%nat /\ In x a /\ In x b.
+Proof.
+  revert j. induction l as [|b r IH]; intros j; cbn [overlap_with].
+  - split; [discriminate|]. intros (k & b & x & H & _). destruct k; discriminate.
+  - rewrite orb_true_iff, andb_true_iff, negb_true_iff, IH, intersects_spec. split.
+    + intros [[H1 (x & H2 & H3)]|(k & c & x & H1 & H2 & H3 & H4)].
+      * exists O, b, x. cbn. apply Nat.eqb_neq in H1. repeat split; auto. lia.
+      * exists (S k), c, x. cbn. repeat split; auto. lia.
+    + intros (k & c & x & H1 & H2 & H3 & H4). destruct k as [|k]; cbn in H1.
+      * left. inversion H1; subst. split; [apply Nat.eqb_neq; lia|eauto].
+      * right. exists k, c, x. repeat split; auto. lia.
+Qed.
+
+Lemma any_overlap_spec alone i all l :
+  (forall a, In a l -> intersects a alone = false) ->
+  (any_overlap_from alone i all l = true <->
+   exists k a, nth_error l k = Some a /\ overlap_with a (i + k) 0 all = true).
+Proof.
+  revert i. induction l as [|a r IH]; intros i Hal; cbn [any_overlap_from].
+  - split; [discriminate|]. intros (k & a & H & _). destruct k; discriminate.
+  - rewrite (Hal a (or_introl eq_refl)). cbn [orb]. rewrite orb_true_iff.
+    rewrite (IH (S i) (fun a0 H0 => Hal a0 (or_intror H0))). split.
+    + intros [H|(k & b & H1 & H2)].
+      * exists O, a. cbn. rewrite Nat.add_0_r. auto.
+      * exists (S k), b. cbn. replace (i + S k)%nat with (S i + k)%nat by lia. auto.
+    + intros (k & b & H1 & H2). destruct k as [|k]; cbn in H1.
+      * left. inversion H1; subst. rewrite Nat.add_0_r in H2. exact H2.
+      * right. exists k, b. replace (S i + k)%nat with (i + S k)%nat by lia. auto.
+Qed.
+
+Definition disjoint_nests (l : list (list Z)) : Prop :=
+  forall i j a b x, i <> j -> nth_error l i = Some a -> nth_error l j = Some b -> In x a -> In x b -> False.
+
+Lemma nests_overlap_false ns : nests_overlap ns = false <-> disjoint_nests (n_alts ns).
+Proof.
+  unfold nests_overlap. split.
+  - intros H i j a b x Hij Ha Hb Hxa Hxb.
+    assert (Ht : any_overlap_from (nests_alone ns) 0 (n_alts ns) (n_alts ns) = true).
+    { apply any_overlap_spec; [intros c Hc; apply alone_disjoint; exact Hc|].
+      exists i, a. split; [exact Ha|]. apply overlap_with_spec. exists j, b, x. cbn. auto. }
+    congruence.
+  - intros H. destruct (any_overlap_from _ 0 (n_alts ns) (n_alts ns)) eqn:E; [|reflexivity].
+    apply any_overlap_spec in E; [|intros c Hc; apply alone_disjoint; exact Hc].
+    destruct E as (i & a & Ha & Ho). apply overlap_with_spec in Ho.
+    destruct Ho as (j & b & x & Hb & Hij & Hxa & Hxb). cbn in Hij.
+    exfalso. exact (H i j a b x Hij Ha Hb Hxa Hxb).
+Qed.
+
+(* T12f *)
+Theorem nested_ok_iff ns :
+  nested_ok ns = true <->
+  (forall a x, In a (n_alts ns) -> In x a -> In x (n_choice_set ns)) /\ disjoint_nests (n_alts ns).
+Proof.
+  unfold nested_ok. rewrite <- nests_invalid_nil, <- nests_overlap_false.
+  destruct (nests_invalid ns) as [|z r] eqn:E.
+  - rewrite union_ok_of_valid by exact E. cbn. rewrite negb_true_iff. tauto.
+  - split; [discriminate|]. intros [H _]. discriminate.
+Qed.
+
+Theorem cnl_ok_iff ns :
+  cnl_ok ns = true <-> (forall a x, In a (n_alts ns) -> In x a -> In x (n_choice_set ns)).
+Proof.
+  unfold cnl_ok. rewrite <- nests_invalid_nil.
+  destruct (nests_invalid ns) as [|z r] eqn:E.
+  - rewrite union_ok_of_valid by exact E. tauto.
+  - split; discriminate.
+Qed.
+
+Theorem nests_overlap_rejected ns i j a b x :
+  i <> j -> nth_error (n_alts ns) i = Some a -> nth_error (n_alts ns) j = Some b -> In x a -> In x b ->
+  nested_ok ns = false.
+Proof.
+  intros Hij Ha Hb Hxa Hxb. destruct (nested_ok ns) eqn:E; [|reflexivity].
+  apply nested_ok_iff in E. destruct E as [_ Hd]. exfalso. exact (Hd i j a b x Hij Ha Hb Hxa Hxb).
+Qed.
+
+Theorem nests_outside_rejected ns a x :
+  In a (n_alts ns) -> In x a -> ~ In x (n_choice_set ns) -> nested_ok ns = false /\ cnl_ok ns = false.
+Proof.
+  intros Ha Hx Hn. split.
+  - destruct (nested_ok ns) eqn:E; [|reflexivity]. apply nested_ok_iff in E. exfalso. apply Hn. exact (proj1 E a x Ha Hx).
+  - destruct (cnl_ok ns) eqn:E; [|reflexivity]. exfalso. apply Hn. exact (proj1 (cnl_ok_iff ns) E a x Ha Hx).
+Qed.
+
+(* ================================================================== instance: the generated table *)
+Definition G := gen_table.
+
+Theorem missing_column_rejected db C x :
+  ctx_wf C = true -> ~ In x (d_cols db) -> In (EMissingColumn x) (audit G db (plug C (EVar x))).
+Proof. exact (missing_column_rejected_T G gen_head_ok db C x). Qed.
+
+Theorem draws_outside_mc C n t :
+  ctx_wf C = true -> passes_under is_mc C = false -> In n (check_draws G (plug C (EDraws n t))).
+Proof. exact (draws_outside_mc_T G gen_head_ok C n t). Qed.
+Theorem draws_under_mc C e1 e2 :
+  passes_under is_mc C = true -> check_draws G (plug C e1) = check_draws G (plug C e2).
+Proof. exact (draws_under_mc_T G gen_head_ok C e1 e2). Qed.
+
+Theorem rv_outside_integral C n :
+  ctx_wf C = true -> passes_under is_integrate C = false -> In n (check_rv G (plug C (ERV n))).
+Proof. exact (rv_outside_integral_T G gen_head_ok C n). Qed.
+Theorem rv_under_integral C e1 e2 :
+  passes_under is_integrate C = true -> check_rv G (plug C e1) = check_rv G (plug C e2).
+Proof. exact (rv_under_integral_T G gen_head_ok C e1 e2). Qed.
+
+Theorem var_outside_trajectory C n :
+  ctx_wf C = true -> passes_under is_traj C = false -> In n (check_panel G (plug C (EVar n))).
+Proof. exact (var_outside_trajectory_T G gen_head_ok C n). Qed.
+Theorem var_under_trajectory C e1 e2 :
+  passes_under is_traj C = true -> check_panel G (plug C e1) = check_panel G (plug C e2).
+Proof. exact (var_under_trajectory_T G gen_head_ok C e1 e2). Qed.
+
+(* the verdict of BIOGEME(...) on each planted fault *)
+Theorem spec_refuses db C :
+  ctx_wf C = true ->
+  (forall x, ~ In x (d_cols db) -> In (EMissingColumn x) (spec_errors G db (plug C (EVar x)))) /\
+  (forall n t, passes_under is_mc C = false -> In (EDrawsOutside n) (spec_errors G db (plug C (EDraws n t)))) /\
+  (forall n, passes_under is_integrate C = false -> In (ERvOutside n) (spec_errors G db (plug C (ERV n)))) /\
+  (forall n, d_panel db = true -> passes_under is_traj C = false ->
+             In (EVarOutsideTraj n) (spec_errors G db (plug C (EVar n)))).
+Proof.
+  intros Hw. repeat split; intros.
+  - apply (spec_refuses_missing_column G gen_head_ok); assumption.
+  - apply (spec_refuses_draws G gen_head_ok); assumption.
+  - apply (spec_refuses_rv G gen_head_ok); assumption.
+  - apply (spec_refuses_var_outside G gen_head_ok); assumption.
+Qed.
+
+Theorem logit_keys_rejected db C uk ak kids :
+  ctx_wf C = true -> ~ (forall k, In k uk <-> In k ak) ->
+  In ELogitKeys (audit G db (plug C (Node (HLogLogit uk ak) kids))).
+Proof. exact (logit_keys_rejected_T G gen_head_ok db C uk ak kids). Qed.
+
+Theorem logit_choice_rejected db C uk ak c rest vs j v :
+  ctx_wf C = true -> choice_values db c = Some vs ->
+  nth_error vs j = Some v -> valid_choice uk v = false ->
+  exists x, In x [ELogitKeys; ELogitChoice; ELogitChoiceNotInAv] /\
+            In x (audit G db (plug C (Node (HLogLogit uk ak) (c :: rest)))).
+Proof. exact (logit_choice_rejected_T G gen_head_ok db C uk ak c rest vs j v). Qed.
+
+Theorem duplicates_rejected db e :
+  ((exists n k1 k2, k1 <> k2 /\ In n (raw_class [e] (d_cols db) k1) /\ In n (raw_class [e] (d_cols db) k2))
+   \/ ~ NoDup (d_cols db)) ->
+  In EDuplicate (spec_errors G db e).
+Proof. exact (duplicates_rejected_T G db e). Qed.
+
+Theorem audit_reports_only_faults db e x :
+  In x (audit G db e) -> exists s, In s (subterms e) /\ In x (own_errors G db (hd_of s) (kids_of s)).
+Proof. exact (audit_sound G db e x). Qed.
+
+Theorem no_false_rejection db e :
+  prepare [e] (d_cols db) <> None ->
+  placed_ok is_draws is_mc e -> placed_ok is_rv is_integrate e ->
+  (d_panel db = true -> placed_ok is_var is_traj e) ->
+  faultfree G db e ->
+  spec_errors G db e = [].
+Proof. exact (no_false_rejection_T G gen_head_ok db e). Qed.
+
+(* ================================================================== 6. the missing-data rule *)
+(* A cell equal to the missing-data code is absent from the row ([e_var en x = None]); reading it is
+   XNaN ("the evaluation fails").  (a) [read_propagates]: through every position that the semantics
+   always reads, the failure reaches the root.  (b) the four lazy operators: a hole in a position
+   that the semantics does not read for this observation has no influence at all
+   ([*_unread]), and a hole in a position that it does read propagates ([*_read]). *)
+From BV Require Import Model.EvalX.
+Open Scope list_scope.
+
+Definition strict_frame (f : cframe) : bool :=
+  let '(h, l, r) := f in
+  match h with
+  | HBin And | HBin Or => Nat.eqb (List.length l) 0          (* the first operand *)
+  | HUn PanelTraj => false                                      (* re-evaluates on the rows of the individual *)
+  | HCondSum => Nat.even (List.length l)                        (* a condition *)
+  | HElem _ | HLogLogit _ _ => Nat.eqb (List.length l) 0      (* the key / the chosen alternative *)
+  | _ => true
+  end.
+
+Lemma lift2_nan_r f a : lift2 f a XNaN = XNaN.
+Proof. destruct a; reflexivity. Qed.
+Lemma lift2_nan_l f b : lift2 f XNaN b = XNaN.
+Proof. reflexivity. Qed.
+
+Lemma list_pair_ind {A} (P : list A -> Prop) :
+  P [] -> (forall a, P [a]) -> (forall a b l, P l -> P (a :: b :: l)) -> forall l, P l.
+Proof.
+  intros H0 H1 H2. fix IH 1. intros [|a [|b l]]; [exact H0|apply H1|apply H2, IH].
+Qed.
+
+Section Missing.
+  Variable Phi : R -> R.
+
+  Lemma xsum_nan l r : xsum (l ++ XNaN :: r) = XNaN.
+  Proof.
+    induction l as [|a l IH]; cbn; [reflexivity|]. unfold xsum in IH. rewrite IH. apply lift2_nan_r.
+  Qed.
+
+  Lemma xlinutil_nan l r : xlinutil (l ++ XNaN :: r) = XNaN.
+  Proof.
+    induction l as [|a|a b l IH] using list_pair_ind; cbn.
+    - destruct r; reflexivity.
+    - rewrite lift2_nan_r. reflexivity.
+    - rewrite IH. apply lift2_nan_r.
+  Qed.
+
+  Lemma xcondsum_cond_nan l r : Nat.even (List.length l) = true -> xcondsum (l ++ XNaN :: r) = XNaN.
+  Proof.
+    induction l as [|a|a b l IH] using list_pair_ind; cbn [List.length Nat.even app]; intros He.
+    - destruct r; reflexivity.
+    - discriminate.
+    - cbn [xcondsum]. rewrite (IH He). destruct a; try reflexivity.
+      destruct (Rnz r0); [apply lift2_nan_r|reflexivity].
+  Qed.
+
+  Lemma xmean_all_nan {A} (l : list A) : xmean (map (fun _ => XNaN) l) = XNaN.
+  Proof. destruct l; reflexivity. Qed.
+
+  Lemma xbin_nan_l op b : xbin op XNaN b = XNaN.
+  Proof. destruct op; reflexivity. Qed.
+  Lemma xbin_nan_r op a : op <> And -> op <> Or -> xbin op a XNaN = XNaN.
+  Proof. intros H1 H2. destruct op; try congruence; destruct a; reflexivity. Qed.
+  Lemma xun_nan op : xun Phi op XNaN = XNaN.
+  Proof. destruct op; reflexivity. Qed.
+
+  Lemma wf_bin op l r : frame_wf (HBin op, l, r) = true -> (l = [] /\ exists b, r = [b]) \/ ((exists a, l = [a]) /\ r = []).
+  Proof.
+    unfold frame_wf. cbn. intros H. apply Nat.eqb_eq in H.
+    destruct l as [|a [|? ?]]; destruct r as [|b [|? ?]]; cbn in H; try lia; eauto.
+  Qed.
+  Lemma wf_unary h l r :
+    match h with HUn _ | HPowC _ | HDerive _ | HIntegrate _ | HBelongs _ => True | _ => False end ->
+    frame_wf (h, l, r) = true -> l = [] /\ r = [].
+  Proof.
+    intros Hh H. unfold frame_wf in H.
+    destruct h; try contradiction; cbn in H; apply Nat.eqb_eq in H;
+      destruct l, r; cbn in H; try lia; auto; rewrite app_length in H; cbn in H; lia.
+  Qed.
+
+  (* one frame: if the hole fails in every environment that has the same row, so does the node *)
+  Lemma strict_frame_nan h l r e x en :
+    frame_wf (h, l, r) = true -> strict_frame (h, l, r) = true ->
+    (forall en', e_var en' x = None -> evalX Phi e en' = XNaN) ->
+    e_var en x = None ->
+    evalX Phi (Node h (l ++ e :: r)) en = XNaN.
+  Proof.
+    intros Hw Hs He Hx. pose proof (He en Hx) as Hen.
+    destruct h as [d|n f|n|n t|n|op|op|c|n|n|s| | |k| |u a].
+    1-5: (unfold frame_wf in Hw; cbn in Hw; apply Nat.eqb_eq in Hw; lia).
+    - (* HBin *)
+      destruct (wf_bin op l r Hw) as [[-> (b & ->)]|[(a & ->) ->]]; cbn [app].
+      + change (xbin op (evalX Phi e en) (evalX Phi b en) = XNaN). rewrite Hen. apply xbin_nan_l.
+      + change (xbin op (evalX Phi a en) (evalX Phi e en) = XNaN). rewrite Hen.
+        apply xbin_nan_r; intros ->; discriminate.
+    - (* HUn *)
+      destruct (wf_unary (HUn op) l r I Hw) as [-> ->]. cbn [app].
+      destruct op.
+      1-7: (match goal with |- evalX _ (Node (HUn ?o) _) _ = _ =>
+              change (xun Phi o (evalX Phi e en) = XNaN) end; rewrite Hen; reflexivity).
+      + (* MonteCarlo *)
+        change (xmean (map (fun d => evalX Phi e (with_draw en d)) (e_draws en)) = XNaN).
+        rewrite (map_ext _ (fun _ => XNaN)); [apply xmean_all_nan|].
+        intros d. apply He. exact Hx.
+      + cbn in Hs. discriminate.
+    - destruct (wf_unary (HPowC c) l r I Hw) as [-> ->]. cbn [app].
+      change (xpowc c (evalX Phi e en) = XNaN). rewrite Hen. reflexivity.
+    - destruct (wf_unary (HDerive n) l r I Hw) as [-> ->]. reflexivity.
+    - destruct (wf_unary (HIntegrate n) l r I Hw) as [-> ->]. reflexivity.
+    - destruct (wf_unary (HBelongs s) l r I Hw) as [-> ->]. cbn [app].
+      change (xbelongs s (evalX Phi e en) = XNaN). rewrite Hen. reflexivity.
+    - change (xsum (map (fun k => evalX Phi k en) (l ++ e :: r)) = XNaN).
+      rewrite map_app. cbn [map]. rewrite Hen. apply xsum_nan.
+    - change (xcondsum (map (fun k => evalX Phi k en) (l ++ e :: r)) = XNaN).
+      rewrite map_app. cbn [map]. rewrite Hen. apply xcondsum_cond_nan. rewrite map_length. exact Hs.
+    - cbn in Hs. apply Nat.eqb_eq in Hs. destruct l; [|discriminate]. cbn [app].
+      change (xelem k (map (fun k0 => evalX Phi k0 en) (e :: r)) = XNaN). cbn [map]. rewrite Hen. reflexivity.
+    - change (xlinutil (map (fun k => evalX Phi k en) (l ++ e :: r)) = XNaN).
+      rewrite map_app. cbn [map]. rewrite Hen. apply xlinutil_nan.
+    - cbn in Hs. apply Nat.eqb_eq in Hs. destruct l; [|discriminate]. cbn [app].
+      change (xloglogit u a (map (fun k0 => evalX Phi k0 en) (e :: r)) = XNaN). cbn [map]. rewrite Hen. reflexivity.
+  Qed.
+
+  (* T12j (a) *)
+  Theorem read_propagates C x :
+    ctx_wf C = true -> forallb strict_frame C = true ->
+    forall en, e_var en x = None -> evalX Phi (plug C (EVar x)) en = XNaN.
+  Proof.
+    induction C as [|[[h l] r] C IH]; intros Hw Hs en Hx.
+    - cbn. rewrite Hx. reflexivity.
+    - cbn in Hw, Hs. apply andb_prop in Hw. destruct Hw as [Hf HC].
+      apply andb_prop in Hs. destruct Hs as [Hsf HsC]. cbn [plug].
+      apply (strict_frame_nan h l r (plug C (EVar x)) x en Hf Hsf); [|exact Hx].
+      intros en' Hx'. exact (IH HC HsC en' Hx').
+  Qed.
+
+  (* ---------------------------------------------------------------- And / Or *)
+  Theorem and_second_unread a b en :
+    evalX Phi a en = XR 0 -> evalX Phi (EBin And a b) en = XR 0.
+  Proof.
+    intros Ha. change (xbin And (evalX Phi a en) (evalX Phi b en) = XR 0). rewrite Ha. cbn.
+    unfold Rnz. destruct (Req_EM_T 0 0); [reflexivity|congruence].
+  Qed.
+  Theorem and_second_read a b en v :
+    evalX Phi a en = XR v -> v <> 0%R -> evalX Phi b en = XNaN -> evalX Phi (EBin And a b) en = XNaN.
+  Proof.
+    intros Ha Hv Hb. change (xbin And (evalX Phi a en) (evalX Phi b en) = XNaN). rewrite Ha, Hb. cbn.
+    unfold Rnz. destruct (Req_EM_T v 0); [contradiction|reflexivity].
+  Qed.
+  Theorem or_second_unread a b en v :
+    evalX Phi a en = XR v -> v <> 0%R -> evalX Phi (EBin Or a b) en = XR 1.
+  Proof.
+    intros Ha Hv. change (xbin Or (evalX Phi a en) (evalX Phi b en) = XR 1). rewrite Ha. cbn.
+    unfold Rnz. destruct (Req_EM_T v 0); [contradiction|reflexivity].
+  Qed.
+  Theorem or_second_read a b en :
+    evalX Phi a en = XR 0 -> evalX Phi b en = XNaN -> evalX Phi (EBin Or a b) en = XNaN.
+  Proof.
+    intros Ha Hb. change (xbin Or (evalX Phi a en) (evalX Phi b en) = XNaN). rewrite Ha, Hb. cbn.
+    unfold Rnz. destruct (Req_EM_T 0 0); [reflexivity|congruence].
+  Qed.
+
+  (* ---------------------------------------------------------------- ConditionalSum *)
+  Lemma xcondsum_false_term l t1 t2 r :
+    Nat.even (List.length l) = true ->
+    xcondsum (l ++ XR 0 :: t1 :: r) = xcondsum (l ++ XR 0 :: t2 :: r).
+  Proof.
+    induction l as [|a|a b l IH] using list_pair_ind; cbn [List.length Nat.even app]; intros He.
+    - cbn. unfold Rnz. destruct (Req_EM_T 0 0); [reflexivity|congruence].
+    - discriminate.
+    - cbn [xcondsum]. rewrite (IH He). reflexivity.
+  Qed.
+  Lemma xcondsum_true_term_nan l v r :
+    Nat.even (List.length l) = true -> v <> 0%R -> xcondsum (l ++ XR v :: XNaN :: r) = XNaN.
+  Proof.
+    induction l as [|a|a b l IH] using list_pair_ind; cbn [List.length Nat.even app]; intros He Hv.
+    - cbn. unfold Rnz. destruct (Req_EM_T v 0); [contradiction|reflexivity].
+    - discriminate.
+    - cbn [xcondsum]. rewrite (IH He Hv). destruct a; try reflexivity.
+      destruct (Rnz r0); [apply lift2_nan_r|reflexivity].
+  Qed.
+
+  Theorem condsum_false_term_unread l c t1 t2 r en :
+    Nat.even (List.length l) = true -> evalX Phi c en = XR 0 ->
+    evalX Phi (Node HCondSum (l ++ c :: t1 :: r)) en = evalX Phi (Node HCondSum (l ++ c :: t2 :: r)) en.
+  Proof.
+    intros He Hc.
+    change (xcondsum (map (fun k => evalX Phi k en) (l ++ c :: t1 :: r)) =
+            xcondsum (map (fun k => evalX Phi k en) (l ++ c :: t2 :: r))).
+    rewrite !map_app. cbn [map]. rewrite Hc. apply xcondsum_false_term. rewrite map_length. exact He.
+  Qed.
+  Theorem condsum_true_term_read l c t r en v :
+    Nat.even (List.length l) = true -> evalX Phi c en = XR v -> v <> 0%R -> evalX Phi t en = XNaN ->
+    evalX Phi (Node HCondSum (l ++ c :: t :: r)) en = XNaN.
+  Proof.
+    intros He Hc Hv Ht.
+    change (xcondsum (map (fun k => evalX Phi k en) (l ++ c :: t :: r)) = XNaN).
+    rewrite !map_app. cbn [map]. rewrite Hc, Ht. apply xcondsum_true_term_nan; [rewrite map_length; exact He|exact Hv].
+  Qed.
+
+  (* ---------------------------------------------------------------- Elem *)
+  Lemma assoc_Z_other {A} z keys (es1 es2 : list A) v1 v2 :
+    nth_error keys (List.length es1) <> Some z ->
+    assoc_Z z keys (es1 ++ v1 :: es2) = assoc_Z z keys (es1 ++ v2 :: es2).
+  Proof.
+    revert keys. induction es1 as [|e es1 IH]; intros [|k keys] Hn; cbn; try reflexivity.
+    - cbn in Hn. destruct (Z.eqb_spec z k); [subst; congruence|reflexivity].
+    - destruct (z =? k); [reflexivity|]. apply IH. exact Hn.
+  Qed.
+  Lemma assoc_Z_none_shape {A} z keys (m1 m2 : list A) v1 v2 :
+    assoc_Z z keys (m1 ++ v1 :: m2) = None <-> assoc_Z z keys (m1 ++ v2 :: m2) = None.
+  Proof.
+    revert keys. induction m1 as [|m m1 IH]; intros [|k keys]; cbn; try tauto.
+    - destruct (z =? k); split; (discriminate || tauto).
+    - destruct (z =? k); [split; discriminate|apply IH].
+  Qed.
+  Lemma assoc_Z_first {A} z keys (es1 es2 : list A) v :
+    nth_error keys (List.length es1) = Some z ->
+    (forall j, (j < List.length es1)%nat -> nth_error keys j <> Some z) ->
+    assoc_Z z keys (es1 ++ v :: es2) = Some v.
+  Proof.
+    revert keys. induction es1 as [|e es1 IH]; intros [|k keys] Hn Hf; cbn in *; try discriminate.
+    - inversion Hn; subst. rewrite Z.eqb_refl. reflexivity.
+    - destruct (Z.eqb_spec z k).
+      + subst. exfalso. apply (Hf O); [lia|reflexivity].
+      + apply IH; [exact Hn|]. intros j Hj. apply (Hf (S j)). lia.
+  Qed.
+
+  Theorem elem_unselected_unread keys k es1 e1 e2 es2 en kr z :
+    evalX Phi k en = XR kr -> R2Z kr = Some z -> nth_error keys (List.length es1) <> Some z ->
+    evalX Phi (Node (HElem keys) (k :: es1 ++ e1 :: es2)) en =
+    evalX Phi (Node (HElem keys) (k :: es1 ++ e2 :: es2)) en.
+  Proof.
+    intros Hk Hz Hn.
+    change (xelem keys (map (fun x => evalX Phi x en) (k :: es1 ++ e1 :: es2)) =
+            xelem keys (map (fun x => evalX Phi x en) (k :: es1 ++ e2 :: es2))).
+    cbn [map]. rewrite Hk. cbn [xelem]. rewrite Hz, !map_app. cbn [map].
+    rewrite (assoc_Z_other z keys _ _ (evalX Phi e1 en) (evalX Phi e2 en)); [reflexivity|].
+    rewrite map_length. exact Hn.
+  Qed.
+  Theorem elem_selected_read keys k es1 e es2 en kr z :
+    evalX Phi k en = XR kr -> R2Z kr = Some z -> nth_error keys (List.length es1) = Some z ->
+    (forall j, (j < List.length es1)%nat -> nth_error keys j <> Some z) ->
+    evalX Phi e en = XNaN ->
+    evalX Phi (Node (HElem keys) (k :: es1 ++ e :: es2)) en = XNaN.
+  Proof.
+    intros Hk Hz Hn Hf He.
+    change (xelem keys (map (fun x => evalX Phi x en) (k :: es1 ++ e :: es2)) = XNaN).
+    cbn [map]. rewrite Hk. cbn [xelem]. rewrite Hz, map_app. cbn [map].
+    rewrite assoc_Z_first; [rewrite He; reflexivity|rewrite map_length; exact Hn|rewrite map_length; exact Hf].
+  Qed.
+
+  (* ---------------------------------------------------------------- logit: unavailable alternatives *)
+  Lemma denominator_unavailable uk us1 u1 u2 us2 ak avs ki :
+    nth_error uk (List.length us1) = Some ki -> assoc_Z ki ak avs = Some (XR 0) ->
+    logit_denominator uk (us1 ++ u1 :: us2) ak avs = logit_denominator uk (us1 ++ u2 :: us2) ak avs.
+  Proof.
+    revert uk. induction us1 as [|u us1 IH]; intros [|k uk] Hn Ha; cbn in Hn; try discriminate.
+    - inversion Hn; subst. cbn. rewrite Ha. unfold Rnz. destruct (Req_EM_T 0 0); [reflexivity|congruence].
+    - cbn. rewrite (IH uk Hn Ha). reflexivity.
+  Qed.
+
+  Lemma firstn_app_exact {A} (l1 l2 : list A) n : n = List.length l1 -> firstn n (l1 ++ l2) = l1.
+  Proof. intros ->. rewrite firstn_app, Nat.sub_diag, firstn_all. cbn. apply app_nil_r. Qed.
+  Lemma skipn_app_exact {A} (l1 l2 : list A) n : n = List.length l1 -> skipn n (l1 ++ l2) = l2.
+  Proof. intros ->. rewrite skipn_app, Nat.sub_diag, skipn_all. reflexivity. Qed.
+
+  (* the utility of an alternative whose availability is 0 on this observation is not read *)
+  Theorem logit_unavailable_unread uk ak c us1 u1 u2 us2 avk en ki :
+    List.length (us1 ++ u1 :: us2) = List.length uk ->
+    nth_error uk (List.length us1) = Some ki ->
+    assoc_Z ki ak (map (fun x => evalX Phi x en) avk) = Some (XR 0) ->
+    evalX Phi (Node (HLogLogit uk ak) (c :: (us1 ++ u1 :: us2) ++ avk)) en =
+    evalX Phi (Node (HLogLogit uk ak) (c :: (us1 ++ u2 :: us2) ++ avk)) en.
+  Proof.
+    intros Hlen Hn Ha.
+    change (xloglogit uk ak (map (fun x => evalX Phi x en) (c :: (us1 ++ u1 :: us2) ++ avk)) =
+            xloglogit uk ak (map (fun x => evalX Phi x en) (c :: (us1 ++ u2 :: us2) ++ avk))).
+    cbn [map]. destruct (evalX Phi c en) as [cr| |]; try reflexivity. cbn [xloglogit].
+    rewrite (map_app _ (us1 ++ u1 :: us2) avk), (map_app _ (us1 ++ u2 :: us2) avk).
+    assert (L1 : List.length uk = List.length (map (fun x => evalX Phi x en) (us1 ++ u1 :: us2)))
+      by (rewrite map_length; congruence).
+    assert (L2 : List.length uk = List.length (map (fun x => evalX Phi x en) (us1 ++ u2 :: us2))).
+    { rewrite map_length. rewrite <- Hlen. rewrite !app_length. reflexivity. }
+    rewrite (firstn_app_exact _ _ _ L1), (firstn_app_exact _ _ _ L2),
+            (skipn_app_exact _ _ _ L1), (skipn_app_exact _ _ _ L2).
+    set (avs := map (fun x => evalX Phi x en) avk) in *.
+    destruct (negb (Nat.eqb (List.length avs) (List.length ak))); [reflexivity|].
+    destruct (R2Z cr) as [z|]; [|reflexivity].
+    rewrite !map_app. cbn [map].
+    set (m1 := map (fun x => evalX Phi x en) us1). set (m2 := map (fun x => evalX Phi x en) us2).
+    assert (Hn' : nth_error uk (List.length m1) = Some ki) by (unfold m1; rewrite map_length; exact Hn).
+    rewrite (denominator_unavailable uk m1 (evalX Phi u1 en) (evalX Phi u2 en) m2 ak avs ki Hn' Ha).
+    destruct (assoc_Z z ak avs) as [[a| |]|] eqn:Ez; try reflexivity.
+    destruct (Z.eq_dec z ki) as [->|Hne].
+    - (* the chosen alternative is the unavailable one: -inf whatever its utility *)
+      rewrite Ha in Ez. inversion Ez; subst.
+      assert (R0 : Rnz 0 = false) by (unfold Rnz; destruct (Req_EM_T 0 0); [reflexivity|congruence]).
+      rewrite R0.
+      pose proof (assoc_Z_none_shape ki uk m1 m2 (evalX Phi u1 en) (evalX Phi u2 en)) as Hsh.
+      destruct (assoc_Z ki uk (m1 ++ evalX Phi u1 en :: m2)) eqn:E1;
+      destruct (assoc_Z ki uk (m1 ++ evalX Phi u2 en :: m2)) eqn:E2; try reflexivity; exfalso.
+      + destruct Hsh as [_ Hsh]. specialize (Hsh eq_refl). discriminate.
+      + destruct Hsh as [Hsh _]. specialize (Hsh eq_refl). discriminate.
+    - rewrite (assoc_Z_other z uk m1 m2 (evalX Phi u1 en) (evalX Phi u2 en)); [reflexivity|].
+      rewrite Hn'. congruence.
+  Qed.
+
+  Lemma denominator_available_nan uk us1 us2 ak avs ki a :
+    nth_error uk (List.length us1) = Some ki -> assoc_Z ki ak avs = Some (XR a) -> a <> 0%R ->
+    logit_denominator uk (us1 ++ XNaN :: us2) ak avs = XNaN.
+  Proof.
+    intros Hn Ha Hne. revert uk Hn. induction us1 as [|u us1 IH]; intros [|k uk] Hn; cbn in Hn; try discriminate.
+    - inversion Hn; subst. cbn. rewrite Ha. unfold Rnz. destruct (Req_EM_T a 0); [contradiction|reflexivity].
+    - cbn. rewrite (IH uk Hn).
+      destruct (assoc_Z k ak avs) as [[b| |]|]; try reflexivity.
+      destruct (Rnz b); [apply lift2_nan_r|reflexivity].
+  Qed.
+
+  (* the utility of an available alternative is read when the chosen alternative is available *)
+  Theorem logit_available_read uk ak c us1 u us2 avk en ki a cr z ca :
+    List.length (us1 ++ u :: us2) = List.length uk ->
+    List.length avk = List.length ak ->
+    nth_error uk (List.length us1) = Some ki ->
+    assoc_Z ki ak (map (fun x => evalX Phi x en) avk) = Some (XR a) -> a <> 0%R ->
+    evalX Phi c en = XR cr -> R2Z cr = Some z ->
+    assoc_Z z ak (map (fun x => evalX Phi x en) avk) = Some (XR ca) -> ca <> 0%R ->
+    evalX Phi u en = XNaN ->
+    evalX Phi (Node (HLogLogit uk ak) (c :: (us1 ++ u :: us2) ++ avk)) en = XNaN.
+  Proof.
+    intros Hlen Hla Hn Ha Hne Hc Hz Hca Hcne Hu.
+    change (xloglogit uk ak (map (fun x => evalX Phi x en) (c :: (us1 ++ u :: us2) ++ avk)) = XNaN).
+    cbn [map]. rewrite Hc. cbn [xloglogit]. rewrite (map_app _ (us1 ++ u :: us2) avk).
+    assert (L1 : List.length uk = List.length (map (fun x => evalX Phi x en) (us1 ++ u :: us2)))
+      by (rewrite map_length; congruence).
+    rewrite (firstn_app_exact _ _ _ L1), (skipn_app_exact _ _ _ L1).
+    set (avs := map (fun x => evalX Phi x en) avk) in *.
+    assert (Hl : Nat.eqb (List.length avs) (List.length ak) = true)
+      by (apply Nat.eqb_eq; unfold avs; rewrite map_length; exact Hla).
+    rewrite Hl. cbn [negb]. rewrite Hz, Hca.
+    rewrite map_app. cbn [map]. rewrite Hu.
+    set (m1 := map (fun x => evalX Phi x en) us1). set (m2 := map (fun x => evalX Phi x en) us2).
+    assert (Hn' : nth_error uk (List.length m1) = Some ki) by (unfold m1; rewrite map_length; exact Hn).
+    rewrite (denominator_available_nan uk m1 m2 ak avs ki a Hn' Ha Hne).
+    destruct (assoc_Z z uk (m1 ++ XNaN :: m2)) as [[v| |]|]; try reflexivity;
+      unfold Rnz; destruct (Req_EM_T ca 0); try contradiction; reflexivity.
+  Qed.
+End Missing.
